@@ -6,6 +6,18 @@ C02, typed reads, part 2: scalar targets (`bool`, integers, floats, `char`, `Str
 namespace SaModel.Read
 open SaModel SaModel.Spec
 
+@[simp] theorem unsupported_ne_ok {α} {d : α} : ((unsupported : R α) = .ok d) = False := by
+  simp [unsupported, fail]
+
+@[simp] theorem ok_ne_unsupported {α} {d : α} : (.ok d = (unsupported : R α)) = False := by
+  simp [unsupported, fail]
+
+@[simp] theorem mustFail_ne_ok {w : String} {x : Option DVal} : (mustFail w = Except.ok x) = False := by
+  simp [mustFail, fail]
+
+@[simp] theorem mustFail_ne_must {w : String} {d : DVal} : (mustFail w = must d) = False := by
+  simp [mustFail, fail, must]
+
 theorem must_inj {d d' : DVal} (h : must d = must d') : d = d' := by
   simp only [must, Except.ok.injEq, Option.some.injEq] at h; exact h
 
@@ -16,13 +28,20 @@ theorem ofLeaf_must {x : Option (R DVal)} {d : DVal} : ofLeaf x = must d ↔ x =
   unfold ofLeaf must na
   split <;> simp_all
 
+theorem map_ok_inv {α β} {f : α → β} {x : R α} {d : β} (h : Except.map f x = .ok d) : ∃ b, x = .ok b ∧ d = f b := by
+  cases x with
+  | ok b => simp only [Except.map, Except.ok.injEq] at h; exact ⟨b, rfl, h.symm⟩
+  | error e => simp [Except.map] at h
+
 /-- finish a scalar case: `hc` says what `castLeaf` demands (possibly under `if`s), the goal is the read -/
 macro "leaf_close" hc:ident : tactic => `(tactic| (
   (repeat' split at $hc:ident) <;>
   first
   | (exfalso; simp (config := { decide := true }) [fail] at $hc:ident; done)
   | ((try simp (config := { decide := true }) at $hc:ident); subst $hc:ident; unfold scalar;
-     simp_all [getRequired, accept, intoInt, bind, Except.bind, pure, Except.pure, fail, rejected]; done)))
+     simp_all [getRequired, accept, intoInt, codecRead, bind, Except.bind, pure, Except.pure, fail, rejected]; done)
+  | (obtain ⟨b, hr, rfl⟩ := map_ok_inv $hc:ident; unfold scalar;
+     simp_all [getRequired, accept, codecRead, ownedStr, ownedBytes, bind, Except.bind, pure, Except.pure]; done)))
 
 theorem prim_scalar {t : Target} {m : Method} (hm : methodOf t = some m) {ty : PrimTy} {v : Option Bits} {vals : List Int}
     {i : Nat} {lv : LVal} {d : DVal} (h : decodeAt (.prim ty v vals) i = .ok lv)
@@ -33,8 +52,8 @@ theorem prim_scalar {t : Target} {m : Method} (hm : methodOf t = some m) {ty : P
   · clear h
     cases t <;> simp only [methodOf, Option.some.injEq, reduceCtorEq] at hm <;> subst hm
     case int ity =>
-      cases ity <;> cases ty <;> simp [castScalar, leafOf, castLeaf, ofLeaf_must, isIntPrim] at hc <;> leaf_close hc
-    all_goals (cases ty <;> simp [castScalar, leafOf, castLeaf, ofLeaf_must, isIntPrim] at hc <;> leaf_close hc)
+      cases ity <;> cases ty <;> simp (config := { decide := true }) [castScalar, leafOf, castLeaf, ofLeaf_must, isIntPrim] at hc <;> leaf_close hc
+    all_goals (cases ty <;> simp (config := { decide := true }) [castScalar, leafOf, castLeaf, ofLeaf_must, isIntPrim] at hc <;> leaf_close hc)
 
 /-- a null slot: only `()` from a Null column is demanded -/
 theorem null_lv_scalar {t : Target} {a : Arr} {d : DVal} (hc : castScalar t a .null = must d) :
@@ -51,7 +70,7 @@ theorem time_scalar {t : Target} {m : Method} (hm : methodOf t = some m) {ty : T
     cases t <;> simp only [methodOf, Option.some.injEq, reduceCtorEq] at hm <;> subst hm
     case int ity =>
       cases ity <;> cases ty <;> simp (config := { decide := true }) [castScalar, castLeaf, ofLeaf_must] at hc <;> leaf_close hc
-    all_goals (cases ty <;> simp [castScalar, castLeaf, ofLeaf_must] at hc)
+    all_goals (cases ty <;> simp (config := { decide := true }) [castScalar, castLeaf, ofLeaf_must] at hc <;> leaf_close hc)
 
 theorem timestamp_scalar {t : Target} {m : Method} (hm : methodOf t = some m) {u : TimeUnit} {tz : Option String}
     {v : Option Bits} {vals : List Int} {i : Nat} {lv : LVal} {d : DVal} (h : decodeAt (.timestamp u tz v vals) i = .ok lv)
@@ -63,7 +82,7 @@ theorem timestamp_scalar {t : Target} {m : Method} (hm : methodOf t = some m) {u
     cases t <;> simp only [methodOf, Option.some.injEq, reduceCtorEq] at hm <;> subst hm
     case int ity =>
       cases ity <;> simp (config := { decide := true }) [castScalar, castLeaf, ofLeaf_must] at hc <;> leaf_close hc
-    all_goals (simp [castScalar, castLeaf, ofLeaf_must] at hc)
+    all_goals (simp (config := { decide := true }) [castScalar, castLeaf, ofLeaf_must] at hc <;> leaf_close hc)
 
 theorem decimal_scalar {t : Target} {m : Method} (hm : methodOf t = some m) {p : Nat} {s : Int}
     {v : Option Bits} {vals : List Int} {i : Nat} {lv : LVal} {d : DVal} (h : decodeAt (.decimal128 p s v vals) i = .ok lv)
@@ -71,8 +90,9 @@ theorem decimal_scalar {t : Target} {m : Method} (hm : methodOf t = some m) {p :
     (scalar Fixes.all m (.decimal128 p s v vals) i >>= accept t) = .ok d := by
   rcases decimal_get h with ⟨rfl, hg⟩ | ⟨rfl, hg⟩
   · have := null_lv_scalar hc; simp [isNullArr] at this
-  · cases t <;> simp only [methodOf, Option.some.injEq, reduceCtorEq] at hm <;> subst hm <;>
-      simp [castScalar, castLeaf, ofLeaf_must] at hc
+  · clear h
+    cases t <;> simp only [methodOf, Option.some.injEq, reduceCtorEq] at hm <;> subst hm <;>
+      simp (config := { decide := true }) [castScalar, castLeaf, ofLeaf_must] at hc <;> leaf_close hc
 
 theorem null_scalar {t : Target} {m : Method} (hm : methodOf t = some m) {len : Nat}
     {i : Nat} {lv : LVal} {d : DVal} (h : decodeAt (.null len) i = .ok lv)
